@@ -162,6 +162,9 @@ def impl_collection(texts, allow, strict, via='strings', keys=None, page_size=2,
         out['run'] = {'ro': TJ.to_tree(mc.ro.xml), 'warns': ws, 'err': err,
                       'nonstrict_by_category': sum(1 for x in w if issubclass(x.category, _exc.MosMergeNonStrictWarning))}
         out['text'] = str(mc)
+    except Exception as e:  # noqa: BLE001 - an accessor of the collection itself raised: an observation like any other
+        out['err'] = impl.err_name(e)
+        out['run'] = None
     finally:
         if tmp:
             shutil.rmtree(tmp, ignore_errors=True)
@@ -304,6 +307,15 @@ def run_c09(tier, seed):
         docs_b.append(TJ.to_text(B.ro_delete(message_id='99')))
         for strict in (False, True):
             jobs.append((f'element_source blocks: {blocks[k][0]} first', docs_b, False, strict, 'strings'))
+    # documents given as str that still carry the encoding declaration of the file they came from, with non-ASCII text:
+    # a collection restores what it was given (strings), or what the bytes say (files, S3 objects)
+    decl = '<?xml version="1.0" encoding="ISO-8859-1"?>'
+    acc = [decl + TJ.to_text(B.ro_doc([B.story('Soir\u00e9e', [B.p('caf\u00e9 \u00a320')])], message_id='1', slug='M\u00e9t\u00e9o')),
+           decl + TJ.to_text(B.story_append([B.story('\u00dcber', [B.p('na\u00efve')])], message_id='2')),
+           decl + TJ.to_text(B.story_delete(['Soir\u00e9e', 'nowhere\u00e9'], message_id='3')), decl + TJ.to_text(B.ro_delete(message_id='4'))]
+    for via in ('strings', 'files', 's3'):
+        for strict in (False, True):
+            jobs.append(('declared ISO-8859-1, non-ASCII text', acc, False, strict, via))
     # collections of exactly 63, 64, 65, 127, 128, 129 messages after the roCreate (batch sizes a loop might work in)
     for nmsg in (63, 64, 65, 127, 128, 129):
         docs_n = [TJ.to_text(B.ro_doc([B.story('A')], message_id='1'))]
@@ -512,6 +524,26 @@ def run_c10(tier, seed):
         if ids != sorted(m.message_id for m in objs):
             oc.failing.append({'kind': 'collection-perm', 'docs': docs, 'via': 'sorted(MosFile)', 'label': f'hist seed={h["seed"]}',
                                'spec': 'sorted([MosFile…]) orders by numeric message ID', 'impl': {'ids': ids}})
+        # ... and the same objects once they have been USED: merged into the running order (which may be completed by
+        # then) - the order of MosFile objects is that of their message IDs, whatever state they are in
+        try:
+            ro_o = [m for m in objs if type(m).__name__ == 'RunningOrder'][0]
+            with warnings.catch_warnings():
+                warnings.simplefilter('ignore')
+                for m in sorted(x for x in objs if x is not ro_o):
+                    try:
+                        ro_o + m
+                    except Exception:  # noqa: BLE001
+                        pass
+            used = objs[:]
+            rng.shuffle(used)
+            ids_used = [m.message_id for m in sorted(used)]
+            if ids_used != want or min(used).message_id != want[0] or max(used).message_id != want[-1]:
+                oc.failing.append({'kind': 'collection-perm', 'docs': docs, 'via': 'sorted(MosFile) after merging', 'label': f'hist seed={h["seed"]} (objects sorted after they were merged)',
+                                   'spec': 'sorted / min / max of MosFile objects follow the numeric message ID also after the objects were merged (completed or not)',
+                                   'impl': {'ids': ids_used, 'completed': bool(ro_o.completed)}})
+        except IndexError:
+            pass
         if len(oc.samples) < 3:
             oc.samples.append({'ids': h['ids'], 'n_docs': len(docs), 'permutations': len(perms)})
     # the width grid: every pair (quick) / triple (thorough) of message IDs from a list that straddles every
@@ -1006,7 +1038,8 @@ def run_c11(tier, seed):
         for k, (c, d) in enumerate(zip(cases, default)):
             if k % 5:
                 continue
-            names = [['f%d.mos.xml', './f%d.mos.xml', os.path.join(tmp, 'f%d.mos.xml'), '.f%d.mos.xml', '../' + os.path.basename(tmp) + '/f%d.mos.xml'][(k // 5 + j) % 5] % j
+            names = [['f%d.mos.xml', './f%d.mos.xml', os.path.join(tmp, 'f%d.mos.xml'), '.f%d.mos.xml', '../' + os.path.basename(tmp) + '/f%d.mos.xml',
+                      'Newsnight [2021-01-01] %d.mos.xml', 'ro*Create[%d]?.mos.xml'][(k // 5 + j) % 7] % j
                      for j in range(len(c['docs']))]
             for nme, t in zip(names, c['docs']):
                 with open(nme, 'w', encoding='utf-8') as f:
